@@ -135,6 +135,39 @@ theorem C20_copy_dest_ok_partial (m : Module) (hm : moduleWF m = true) (sd : Str
     exact List.take_prefix _ _
   exact G_ok_mono_arr hm (w1 := rootView sd ps (src.take sz.toNat)) hcov hle hsd (K + 2) h1
 
+/-- `Equals` ignores the bytes behind the structure: if a view knows its size `sz ≤ |a|` and `a'`
+has the same first `sz` bytes (the buffers differ only in trailing bytes no field covers), then
+`Equals` against *any* third view gives the same answer for both (and, with
+`C20_equals_symmetric`, on either side).  Partial: only padding *behind* the last field, not gaps
+between fields; hypothesis `SizeCovers` as in `C01_locality_partial`. -/
+theorem C20_equals_ignores_padding_partial (m : Module) (hm : moduleWF m = true) (sd : StructDef)
+    (hsd : structWF m sd = true) (hcov : SizeCovers m sd) (ps : List Val) (a a' : List Nat)
+    (K : Nat) (sz : Int)
+    (hsz : (G m (K + 1)).read (rootView sd ps a) [sd.sizeField] = some (.int sz))
+    (h0 : 0 ≤ sz) (hfit : sz ≤ a.length) (hsame : a'.take sz.toNat = a.take sz.toNat)
+    (k : Nat) (hk : k ≤ K) (wx : SView) (fuel : Nat) :
+    viewEquals (G m k) m fuel (rootView sd ps a) wx = viewEquals (G m k) m fuel (rootView sd ps a') wx := by
+  have hlen0 : ((rootView sd ps (a.take sz.toNat)).st.size : Int) ≥ sz := by
+    simp only [rootView, Storage.size, List.length_take]; omega
+  -- the truncated view agrees with the view over `a` …
+  have e1 := tight_equals hm (w0 := rootView sd ps (a.take sz.toNat)) (w := rootView sd ps a) rfl rfl
+    (rootView_take_le sd ps a _) rfl hsd hcov K sz hsz hlen0 k hk wx fuel
+  -- … it knows the size too, hence so does the view over `a'` …
+  have hag := tight_agree hm (w0 := rootView sd ps (a.take sz.toNat)) (w := rootView sd ps a) rfl rfl
+    (rootView_take_le sd ps a _) rfl hsd hcov K sz hsz hlen0 (K + 1) (Nat.le_refl _)
+  have hsz0 : (G m (K + 1)).read (rootView sd ps (a.take sz.toNat)) [sd.sizeField] = some (.int sz) := by
+    rw [hag.read]; exact hsz
+  have hle : StLe (rootView sd ps (a.take sz.toNat)).st (rootView sd ps a').st := by
+    simp only [rootView, StLe]
+    rw [← hsame]
+    exact List.take_prefix _ _
+  have hsz' : (G m (K + 1)).read (rootView sd ps a') [sd.sizeField] = some (.int sz) :=
+    (G_mono hm (K + 1) (rootView sd ps (a.take sz.toNat)) (rootView sd ps a') ⟨rfl, OLe.refl _, hle⟩ hsd).1 _ _ hsz0
+  -- … and agrees with the truncated view as well
+  have e2 := tight_equals hm (w0 := rootView sd ps (a.take sz.toNat)) (w := rootView sd ps a') rfl rfl
+    hle rfl hsd hcov K sz hsz' hlen0 k hk wx fuel
+  rw [← e1, e2]
+
 /-! ### non-vacuity -/
 
 /-- `struct Ex: 0 [+1] UInt tag; if tag == 1: 1 [+2] UInt a; 3 [+tag] UInt:8[] arr` (C01's example):
